@@ -646,5 +646,7 @@ CHECKS = {
                           'FastPasta.C11.data_src_checks', 'FastPasta.C11.accessors_src', 'FastPasta.C11.lanes_src']),
     'C12': dict(modules=['FastPasta.Props.C12'], needs_harness=True, corr='cutter', run=run_c12,
                 theorems=['FastPasta.C12.cut_format2', 'FastPasta.C12.cut_format0', 'FastPasta.C12.cut_overpadded',
-                          'FastPasta.C12.overpadded_reported_and_reset', 'FastPasta.C12.words_examined_are_cut', 'FastPasta.C12.cut_words_len10_v2']),
+                          'FastPasta.C12.overpadded_reported_and_reset', 'FastPasta.C12.words_examined_are_cut', 'FastPasta.C12.cut_words_len10_v2',
+                          # tie by translation (tools/rs2lean.py -> Spec/PayloadSrcGen.lean)
+                          'FastPasta.C12.preprocess_src_eq', 'FastPasta.C12.preprocess_src_err_iff']),
 }
